@@ -7,7 +7,7 @@ def units(tier, seed):
         sel = [(d['d1'], [3]), (d['d2'], [4]), (d['lrece'], [3]), (d['lalr'], [3]), (d['nullrun'], [3]), (d['mutleft'], [3]), (d['chain'], [3]), (d['trail'], [3]), (d['nulfirst'], [3]), (d['interl'], [3]), (d['lrnul'], [3]), (d['firstmut'], [3])]
         sel += [(g, [3]) for g in families.g_rand(seed, 3)]
     else:
-        sel = [(g, [1, 2, 3, 4, 5]) for g in d.values() if g.name not in families.KNOWN_DEFECT_UNITS] + [(g, [2, 3, 4, 5]) for g in families.g_rand(seed, 24)]
+        sel = [(g, [1, 2, 3, 4, 5]) for g in d.values() if g.name not in families.KNOWN_DEFECT_UNITS | families.SPECIAL_VARIANT_UNITS] + [(g, [2, 3, 4, 5]) for g in families.g_rand(seed, 24)]
         sel = [(g, [l for l in ls if (g.nt + 1) ** l <= 20000]) for g, ls in sel]
     return sel
 
